@@ -52,6 +52,14 @@ def corpus():
                                        "ew P:0:0:2 P:1:1:1", "ew P:0:0:2 P:1:0:2"]))
     cs.append(("corpus-wide-eq-tail32", ["char 4", "buf 00000061000000620000006300000064", "buf 00000061000000620000006300000065",
                                          "eq P:0:0:4 P:1:0:4", "eq P:0:1:3 P:1:1:3", "sw P:0:0:4 P:1:0:4"]))
+    # seeded: a move constructor that steals the buffer but keeps the source's _length.  At HEAD std::move copies.
+    use_src = ["hs 0", "scopy 0", "sappc 0 98", "spush 0 99", "sresize 0 2", "scmp 0 1", "sappv 0 S:1", "sdel 0"]
+    cs.append(("corpus-move-ctor", ["traits", "buf 616200", "scs 0 0", "smove 0"] + use_src))
+    cs.append(("corpus-move-assign", ["buf 616200", "scs 0 0", "snew", "smovea 1 0"] + use_src))
+    cs.append(("corpus-move-assign-self", ["buf 616200", "scs 0 0", "smovea 0 0", "scopy 0", "spush 0 0"]))
+    cs.append(("corpus-move-by-value", ["buf 616200", "scs 0 0", "sbyval 0", "sbyvalm 0", "scopy 0", "sresize 0 5", "spush 1 97", "scmp 0 1"]))
+    cs.append(("corpus-move-empty", ["snew", "smove 0", "sbyvalm 0", "smovea 1 0", "spush 0 97", "smove 0", "sresize 0 0", "scmp 0 2"]))
+    cs.append(("corpus-move-wide", ["char 2", "traits", "buf 006101610000", "scs 0 0", "smove 0", "scopy 0", "spush 0 354", "sresize 0 1", "scmp 0 1"]))
     # assorted
     cs.append(("corpus-self-alias", ["buf 616200", "scs 0 0", "sappv 0 S:0", "sassign 0 0", "sswap 0 0", "splusv 0 S:0", "scmp 0 1", "hs 0"]))
     cs.append(("corpus-null-views", ["eq N N", "ff N 0 0", "fl N 0", "ffo N N 0", "sub N 0 0", "sw N N", "ew N V:0", "num u8 N", "hv N",
@@ -74,6 +82,7 @@ def pair_case(cid, a, b, ct="1"):
           "sappv 1 %s" % A, "sassign 0 1", "scmp 0 1", "hs 0", "hv S:1", "hv %s" % A]
     if lb:
         ls += ["ffo %s %s 1" % (A, B), "sappc 0 %d" % b[0], "splusc 1 %d" % b[-1]]
+    ls += ["smove 0", "scmp 0 1", "sappv 0 %s" % B, "smovea 1 0", "spush 0 0", "sbyvalm 1", "scopy 1", "sresize 1 %d" % la]
     if ct != "1":
         ls = [l for l in ls if not l.startswith("scmpc")]
     return (cid, ls)
@@ -293,7 +302,8 @@ class Rand:
         L = self.lines
         kind = r.choice(["eq", "ff", "ffo", "fl", "sub", "sw", "ew", "num", "hv", "len", "nlen",
                          "snew", "scs", "spl", "sview", "sfill", "scopy", "sassign", "sresize", "splusv", "splusc",
-                         "sappv", "sappv", "sappc", "spush", "scmp", "scmpc", "ssw", "sew", "hs", "sdetach", "sswap", "sdel", "buf"])
+                         "sappv", "sappv", "sappc", "spush", "scmp", "scmpc", "ssw", "sew", "hs", "sdetach", "sswap", "sdel", "buf",
+                         "smove", "smove", "smovea", "sbyval", "sbyvalm", "traits"])
         live = self.live()
         if self.ct != "1" and kind in ("num", "scmpc"):
             kind = "eq"
@@ -363,6 +373,19 @@ class Rand:
             L.append("snew"); self.strs.append([])
         elif kind == "scopy":
             k = r.choice(live); L.append("scopy %d" % k); self.strs.append(list(self.strs[k]))
+        elif kind == "smove":       # at HEAD a move is a copy; the source is used again by the following ops
+            k = r.choice(live); L.append("smove %d" % k); self.strs.append(list(self.strs[k]))
+            self.use_again(k)
+        elif kind == "smovea":
+            d, s = r.choice(live), r.choice(live)
+            L.append("smovea %d %d" % (d, s)); self.strs[d] = list(self.strs[s])
+            self.use_again(s)
+        elif kind in ("sbyval", "sbyvalm"):
+            k = r.choice(live); L.append("%s %d" % (kind, k))
+            if kind == "sbyvalm":
+                self.use_again(k)
+        elif kind == "traits":
+            L.append("traits")
         elif kind == "sassign":
             d, s = r.choice(live), r.choice(live)
             L.append("sassign %d %d" % (d, s)); self.strs[d] = list(self.strs[s]); self.kill_views()
@@ -407,6 +430,28 @@ class Rand:
         elif kind == "sdel":
             if r.random() < 0.5:
                 k = r.choice(live); L.append("sdel %d" % k); self.strs[k] = None
+
+    def use_again(self, k):
+        """keep using a moved-from string: size/data (every op prints them), copy, +=, push_back, resize, compare, hash"""
+        r = self.rng
+        L = self.lines
+        for _ in range(r.choice([1, 2, 3])):
+            u = r.choice(["scopy", "spush", "sappc", "sresize", "scmp", "hs", "sappv", "splusc"])
+            if u == "scopy":
+                L.append("scopy %d" % k); self.strs.append(list(self.strs[k]))
+            elif u in ("spush", "sappc"):
+                c = r.choice([0, 0x61]); L.append("%s %d %d" % (u, k, c)); self.strs[k] = self.strs[k] + [c]
+            elif u == "sresize":
+                n = r.choice([0, 1, len(self.strs[k]), len(self.strs[k]) + 2]); L.append("sresize %d %d" % (k, n))
+                self.strs[k] = (self.strs[k] + [int('cd' * self.w, 16)] * n)[:n]
+            elif u == "scmp":
+                L.append("scmp %d %d" % (k, r.choice(self.live())))
+            elif u == "hs":
+                L.append("hs %d" % k)
+            elif u == "sappv":
+                L.append("sappv %d S:%d" % (k, k)); self.strs[k] = self.strs[k] + self.strs[k]
+            else:
+                L.append("splusc %d 98" % k); self.strs.append(self.strs[k] + [98])
 
     def kill_views(self):
         pass   # stored views derived from strings are never marked safe, nothing to do
